@@ -100,7 +100,8 @@ def _subset(draw, universe, min_size=0, max_size=None):
 
 
 @st.composite
-def _cp_case(draw, algo, wclass, budgets=(0, 1, 2, 3), fixed="proper", reexpress=False, orthogonalise=False):
+def _cp_case(draw, algo, wclass, budgets=(0, 1, 2, 3), fixed="proper", reexpress=False, orthogonalise=False,
+             linesearch=False):
     """wclass: 'unit' | 'weighted';  fixed: 'none' | 'proper' (subset without last mode, may be empty)
        | 'nonempty' | 'all' | 'with_last' (contains the last mode; may be all)"""
     spec = CP_ALGOS[algo]
@@ -152,6 +153,12 @@ def _cp_case(draw, algo, wclass, budgets=(0, 1, 2, 3), fixed="proper", reexpress
             opts["return_errors"] = draw(st.booleans())
         if orthogonalise:
             opts["orthogonalise"] = draw(st.sampled_from([True, 1, 2]))
+        if linesearch:
+            # line-search steps happen at iteration indices 6, 8, 10: the budget must exceed 6; no early stop,
+            # no regularisation (accepted jumps are what matters)
+            opts["linesearch"] = True
+            opts["tol"] = draw(st.sampled_from([0, 0, 1e-12]))
+            opts["l2_reg"] = 0
     elif algo == "nn_hals":
         opts["nn_modes"] = draw(st.sampled_from(["all", "all", "subset", "none"]))
         if opts["nn_modes"] == "subset":
@@ -189,6 +196,8 @@ def _run_cp(case, w, F, X, n_iter=None, fixed=None):
             kw["return_errors"] = True
         if opts.get("orthogonalise"):
             kw["orthogonalise"] = opts["orthogonalise"]
+        if opts.get("linesearch"):
+            kw["linesearch"] = True
     elif algo == "nn_hals":
         nm = opts.get("nn_modes", "all")
         kw["nn_modes"] = None if nm == "none" else nm
@@ -405,7 +414,7 @@ def o_tucker(case):
 # PARAFAC2
 # ----------------------------------------------------------------------------
 @st.composite
-def _p2_case(draw, kind, budgets=(0,), wclass="any"):
+def _p2_case(draw, kind, budgets=(0,), wclass="any", linesearch=None):
     """kind: 'p2' (Parafac2Tensor-style triple) or 'cp' ((weights, [A, B, C]) with B of shape (J, R))"""
     I = draw(st.integers(2, 4))
     K = draw(st.integers(2, 4))
@@ -431,7 +440,7 @@ def _p2_case(draw, kind, budgets=(0,), wclass="any"):
     else:
         wk = draw(st.sampled_from(["none", "ones", "pos", "neg", "mixed"]))
     c["weights"] = draw(_weights(R, wk))
-    c["linesearch"] = draw(st.booleans())
+    c["linesearch"] = draw(st.booleans()) if linesearch is None else linesearch
     if wclass == "weighted":
         c["absorb"] = draw(st.integers(0, 2))
     return c
@@ -548,6 +557,11 @@ def subchecks(tier):
     subs.append(SubCheck("cp/parafac/fixed_orthogonalise", _cp_case("parafac", "unit", budgets=(1, 2, 3), fixed="nonempty",
                                                                orthogonalise=True), o_cp, quick=250, thorough=1200,
                          discard_exc=LINALG))
+    # line search extrapolates *all* factors (seeded change C14-m1): fixed modes must still come back bit for bit
+    for wc in ("unit", "weighted"):
+        subs.append(SubCheck(f"cp/parafac/fixed_linesearch_{wc}",
+                             _cp_case("parafac", wc, budgets=(7, 8, 9, 12), fixed="nonempty", linesearch=True), o_cp,
+                             quick=150, thorough=1200, discard_exc=LINALG))
     subs.append(SubCheck("cp/nn_hals/fixed_last_tol0_unit", _cp_case("nn_hals", "unit", fixed="with_last"), o_cp, quick=250,
                          thorough=1200, discard_exc=LINALG))
     subs.append(SubCheck("tucker/budget0", _tucker_case("tucker", fixed="proper", budgets=(0,)), o_tucker, quick=400, thorough=2500,
@@ -568,4 +582,7 @@ def subchecks(tier):
     subs.append(SubCheck("parafac2/budget0_cp", _p2_case("cp"), o_p2_budget0, quick=300, thorough=2000, discard_exc=LINALG))
     subs.append(SubCheck("parafac2/reexpress", _p2_case("p2", budgets=(1, 2, 3), wclass="weighted"), o_p2_reexpress, quick=200,
                          thorough=1000, discard_exc=LINALG))
+    # line-search steps of parafac2 happen at iteration indices 6, 8, 10
+    subs.append(SubCheck("parafac2/reexpress_linesearch", _p2_case("p2", budgets=(7, 8, 9, 12), wclass="weighted", linesearch=True),
+                         o_p2_reexpress, quick=80, thorough=600, discard_exc=LINALG))
     return subs
